@@ -78,7 +78,16 @@ type vfCred struct {
 func (m *vfModel) credsOf(ctx *vfReqCtx) []vfCred {
 	var out []vfCred
 	now := time.Now()
-	if v := ctx.req.Cookies[authCookieName]; v != "" {
+	presented := []string{ctx.req.Cookies[authCookieName]}
+	for _, pc := range ctx.req.PreCookies {
+		if pc[0] == authCookieName {
+			presented = append(presented, pc[1])
+		}
+	}
+	for _, v := range presented {
+		if v == "" {
+			continue
+		}
 		if ci := m.cookies[v]; ci != nil {
 			valid := !now.After(ci.Exp) && !now.Before(ci.AuthAt.Add(-time.Second)) // whole-second granularity of the token
 			if ci.Kind == "cli" {
